@@ -534,6 +534,7 @@ pub fn check_obs(prop: &str, case: &Case, o: &Obs) -> Vec<Finding> {
     // termination / no panic: every property that explores schedules wants it
     match &o.run.verdict {
         Verdict::Hang => out.push(fnd("hang", "coordinator would wait forever (no task left, not done)".into())),
+        Verdict::Stuck(w) => out.push(fnd("hang", format!("the run never returned: {w}"))),
         Verdict::Diverges => out.push(fnd("diverges", "unbounded task creation".into())),
         Verdict::Panic(m) => out.push(fnd("coordinator-panic", format!("coordinator panicked: {m}"))),
         _ => {}
